@@ -29,6 +29,9 @@ GEN_AUDIT += ["Dashu.Audit.C05Const"]
 # Mathlib ℚ), infinities at the ends; transitivity / swap of the code's comparison on the invariant's domain
 GEN_PROPS += ["Dashu.Props.C05Order"]
 GEN_AUDIT += ["Dashu.Audit.C05Order"]
+# round 7: link to C11's mirrored exp / ln / powf bodies (results fit precision+1 digits => cmp = order of the values)
+GEN_PROPS += ["Dashu.Props.C05Trans"]
+GEN_AUDIT += ["Dashu.Audit.C05Trans"]
 JOBS = 12
 READY = True
 
@@ -803,6 +806,16 @@ REFINED = [
     "float_spec_infinities_at_ends, float_cmp_is_value_order, float_cmp_trans, float_cmp_swap; float_history_value_order: for any two "
     "registers of any float history cmp decides <,=,> of the ℚ values and == is equality of the values; infinities included: one order "
     "-inf = ⊥ < ℚ < ⊤ = +inf (FRepr.xval; float_spec_is_extended_value_order, float_spec_trans, float_cmp_is_extended_value_order))",
+    "round 7: float_history_value_order no longer needs precisions <= isize::MAX: for any two registers of any float history, of ANY "
+    "precisions (also >= 2^63, e.g. with_precision(usize::MAX)), with at most 2^63 digits, cmp decides <,=,> of the ℚ values and == is "
+    "equality of the values (float_history_value_order_any_precision); cmp is transitive and swap-symmetric on any three registers of a "
+    "history (float_history_cmp_total_order)",
+    "round 7: link to C11 — every .ok result of C11's mirrored Context::exp / exp_m1 / ln / ln_1p / powf bodies (Model/Trans/Series: "
+    "expFull, lnFull, powfBody; executed against the real code by C11's driver) at a limited precision p has at most p+1 digits, for "
+    "every base >= 2, mode, estimator, operand and number of series terms: the working precisions are > p and never decrease along the "
+    "series loops, so the closing with_precision(p) always rounds (or the path ends in powi at p / an exact shortcut) "
+    "(Proofs/Int/FloatTrans; Props/C05Trans.float_transcendental_results_fit); hence cmp of any two such results of any two precisions "
+    "<= isize::MAX is the order of the exact values (float_cmp_of_transcendental_results)",
     "round 6: TryFrom<f32/f64> for FBig<R,2> / Repr<2> is an instruction of the float history (`fromFloat`: Repr::new(man, exp), "
     "precision = bit length of the mantissa, 0 for +-0.0), executed by the driver op `f.from` on C06's mirrored decode",
 ]
@@ -818,9 +831,10 @@ FRONTIER = [
     "from_word/from_dword + with_sign); inside sqrt the multi-word kernel is C12's contract-level `sqrtRemKernelFrontier`",
     "float producers: digits <= precision+1 is proved for repr_round(_ref)/with_precision, add, sub, mul, sqr, cubic, repr_div, "
     "Context::div (given sound digits_ub/digits_lb estimates), inv, sqrt, powi, convert_int, from_parts, parser assembly, "
-    "TryFrom<f32/f64> (round 6: history instruction `fromFloat`, executed by the driver op `f.from` on C06's mirrored `decode`); NOT "
-    "modelled here: exp/ln/powf (their last step is repr_round / with_precision — C11 mirrors the bodies; checked on the real "
-    "code by `f.ctx`/`f.fits`), with_base (C08; fix 02e179b)",
+    "TryFrom<f32/f64> (round 6: history instruction `fromFloat`, executed by the driver op `f.from` on C06's mirrored `decode`); exp / exp_m1 / ln / "
+    "ln_1p / powf (round 7: proved about C11's mirrored bodies, Props/C05Trans.float_transcendental_results_fit — not instructions of "
+    "float_history, and normalisation (FCanon) of their results is not proved: it holds by repr_round/powi's Repr::new, sampled by "
+    "`f.ctx`/`f.fits`); NOT modelled here: with_base (C08; fix 02e179b)",
     "FBig::from_parts_const (own normaliser + precision-inference loop on a double word) is hand-mirrored "
     "(Model/Int/FloatConst.lean; a const-fn loop over DoubleWord is outside the typed translator's subset: Tie B only, `f.norm` "
     "prints the inferred precision); proved: its representation = Repr::normalize for every base and double word "
@@ -841,13 +855,17 @@ FRONTIER = [
     "hash_follows_value + history_eq_cmp_hash (all producers of the instruction set); FBig incl. infinities: float_cmp (under "
     "digits <= precision+1, which float_history gives for the modelled producers), float_eq_iff_cmp_equal, "
     "float_cmp_equal_iff_eq; FBig implements no Hash; RBig/Relaxed: ratio_cmp, relaxed_eq, rbig_eq, rbig_hash_follows_value, "
-    "ratio_cmp_equal_iff_eq + C05Link.rational_history_eq_cmp_hash. Clauses WITHOUT a theorem: cmp of floats produced by "
-    "exp/ln/powf/with_base (producers not in float_history: sampled by f.ctx / f.viabase / f.basecmp only); "
+    "ratio_cmp_equal_iff_eq + C05Link.rational_history_eq_cmp_hash. cmp of floats produced by exp/ln/powf: float_cmp_of_transcendental_results "
+    "(round 7, about C11's mirrored bodies; cmp = specFCmp, the order of the values; `Equal <=> ==` for them would also need their "
+    "normalisation, not proved). Clauses WITHOUT a theorem: cmp of floats produced by "
+    "with_base (producer not in float_history: sampled by f.viabase / f.basecmp only); "
     "`cmp is the total order of the values` for floats: specFCmp = order of the rational values signif*B^exp in ℚ with the "
     "infinities at the ends (Props/C05Order.float_spec_is_value_order, float_spec_infinities_at_ends; as ONE order on ⊥ < ℚ < ⊤: "
     "float_spec_is_extended_value_order, float_spec_trans, float_cmp_is_extended_value_order), the code's comparison "
     "decides <,=,> of the values and is transitive and swap-symmetric (float_cmp_is_value_order, float_cmp_trans, float_cmp_swap) "
-    "— on the invariant's domain (finite operands with digits <= min(p, isize::MAX)+1), not outside it; `PartialOrd` consistency "
+    "— on the invariant's domain (finite operands with digits <= min(p, isize::MAX)+1), not outside it; for the registers of a float "
+    "history at ANY precisions (round 7: float_history_value_order_any_precision, float_history_cmp_total_order; only `<= 2^63 digits` is "
+    "assumed, the Nat/usize gap); `PartialOrd` consistency "
     "(`partial_cmp == Some(cmp)`, `<` etc.) is checked by the harness, derived impls not modelled",
     "AbsOrd/AbsEq and cross-type comparisons are C14",
 ]
@@ -886,7 +904,9 @@ THEOREMS += ["Dashu.Props.C05Link.rational_history_eq_cmp_hash"]
 THEOREMS += ["Dashu.Props.C05." + n for n in ["float_spec_is_value_order", "float_spec_infinities_at_ends", "float_cmp_is_value_order",
                                                "float_cmp_trans", "float_cmp_swap", "float_history_value_order",
                                                "float_spec_is_extended_value_order", "float_spec_trans",
-                                               "float_cmp_is_extended_value_order"]]
+                                               "float_cmp_is_extended_value_order",
+                                               "float_history_value_order_any_precision", "float_history_cmp_total_order"]]
+THEOREMS += ["Dashu.Props.C05.float_transcendental_results_fit", "Dashu.Props.C05.float_cmp_of_transcendental_results"]
 THEOREMS += ["Dashu.Props.C05.from_parts_const_normalized", "Dashu.Props.C05.constStrip_eq_removeAll",
              "Dashu.Props.C05.from_parts_const_fits", "Dashu.Props.C05.constDigits_spec"]
 
@@ -906,7 +926,10 @@ LEVEL_TEXT = ("Machine-checked Lean 4 theorems that (integers, every word size a
               "regenerated from the source on every run and proved equal to both hand models for every base and input (its remove arm is "
               "C12's mirrored algorithm); for rationals ==/cmp/Hash of any two registers of any finite program follow the values (link to "
               "C04's history invariant). Exponent/precision arithmetic is unbounded in the theorems; the comparison's clamp of the precisions "
-              "to isize::MAX (fix ee43486 of the isize overflow found in round 5) is part of the regenerated text, the model and the hypothesis.")
+              "to isize::MAX (fix ee43486 of the isize overflow found in round 5) is part of the regenerated text, the model and the hypothesis. "
+              "Round 7: the results of C11's mirrored exp / exp_m1 / ln / ln_1p / powf bodies are proved to fit precision+1 digits, so cmp of "
+              "any two of them is the order of the values (link to C11); the value-order theorem for float histories holds at ANY precisions "
+              "(only <= 2^63 digits assumed) and cmp is transitive / swap-symmetric on the registers of a history.")
 LEVEL_NOTE = ("Trusted: Lean kernel; axioms propext/Classical.choice/Quot.sound; correspondence harness + generators (sampling) for the "
               "tie model<->code and for the claim that *every* producer yields canonical form (proved here only for the producers listed "
               "in refined_kernels); the digit-estimate hypothesis. Repaired during this work: floats leaving with_base/convert_base "
